@@ -344,6 +344,10 @@ def worker(widx, seed, tier, stats):
         stats.violations.append(v)
     if widx == 0:
         subprocess_sample(stats)
+    if tier == 'thorough' and not stats.violations:
+        v = common.run_atheris(ID, seed % 100000 + widx, 100000, 180, stats)
+        if v:
+            stats.violations.append({'what': 'atheris: ' + v['what'], 'case': {'details': v['details']}})
 
 
 def subprocess_sample(stats):
